@@ -4,8 +4,10 @@ package main
 
 import (
 	"fmt"
+	"go/token"
 	"go/types"
 	"math/big"
+	"os"
 	"sort"
 	"strings"
 
@@ -474,6 +476,16 @@ func (in *Inst) doLoop(l *loopInfo, parent *LoopS, entryG *Term) (*LoopS, []term
 		if !ok {
 			continue
 		}
+		if cur.Op == "slice" || (cell.Attr != nil && cell.Attr["slicecell"] != nil) {
+			// a slice-valued cell (the unread rest of the input kept in a scanner object): window start and length
+			root, off, ln := in.sliceParts(cur)
+			co := &Carried{Sym: in.newSym(SLoopVar, cell.Name+".off", TInt), Init: off, Cell: cell, Ty: TInt, Name: cell.Name + ".off"}
+			cl := &Carried{Sym: in.newSym(SLoopVar, cell.Name+".len", TInt), Init: ln, Cell: cell, Ty: TInt, Name: cell.Name + ".len"}
+			co.Sym.Loop, cl.Sym.Loop = ls, ls
+			ls.Carried = append(ls.Carried, co, cl)
+			in.X.cellCur[cell] = S.mkOp("slice", TRef, root, S.SymTerm(co.Sym), S.SymTerm(cl.Sym))
+			continue
+		}
 		c := &Carried{Sym: in.newSym(SLoopVar, cell.Name, cur.Ty), Init: cur, Cell: cell, Ty: cur.Ty, Name: cell.Name}
 		c.Sym.Loop = ls
 		ls.Carried = append(ls.Carried, c)
@@ -530,6 +542,25 @@ func (in *Inst) finishLoop(ls *LoopS, rs *regionState) {
 				}
 			} else {
 				v = be.cells[c.Cell]
+				if v != nil {
+					for _, fl := range rs.edgeFin[edgeKey{be.From, l.Header}] {
+						v = in.finalSubst(v, fl)
+					}
+					// stores were recorded under their block's path condition, which the back edge implies
+					v = S.RestrictDeep(v, be.G)
+					if isOff, isLen := c.Name == c.Cell.Name+".off", c.Name == c.Cell.Name+".len"; isOff || isLen {
+						if v.Op != "slice" {
+							in.X.und("%s: slice-valued cell %s takes a value that is not a window of a known object", in.Fn, c.Cell.Name)
+							continue
+						}
+						_, off, ln := in.sliceParts(v)
+						if isOff {
+							v = off
+						} else {
+							v = ln
+						}
+					}
+				}
 			}
 			if v == nil {
 				continue
@@ -556,7 +587,17 @@ func (in *Inst) finishLoop(ls *LoopS, rs *regionState) {
 			continue
 		}
 		step := S.Sub(c.Next, S.SymTerm(c.Sym))
+		if os.Getenv("VERIF_DEBUG_AFFC") != "" && c.Cell != nil {
+			fmt.Fprintf(os.Stderr, "affine? %s next=%v step=%v\n", c.Name, c.Next, step)
+		}
 		if DependsOn(step, inLoop) {
+			// a position that is advanced by one and wraps to 0 on reaching N (the cyclic extension of a sequence walked
+			// with a running index instead of i % N): x_k = (x_0 + k) % N, for x_0 in (-N, N)
+			if cf := wrapClosedForm(S, c, iter, inLoop); cf != nil {
+				c.Affine = true
+				c.Step = S.Int(1)
+				sub[c.Sym] = cf
+			}
 			continue
 		}
 		c.Affine = true
@@ -616,7 +657,43 @@ func (in *Inst) finishLoop(ls *LoopS, rs *regionState) {
 	}
 	if headExit != nil {
 		exact := len(ls.Exits) == 1 && len(rs.tex) == 0
+		ls.HeadExact = exact
 		contG := S.Not(headExit.Guard)
+		// `i != N` with i = k (counting up from 0 by one) and N >= 0 is `i < N` on every value i takes
+		if contG.Op == "not" && contG.Args[0].Op == "eq0" {
+			d := contG.Args[0].Args[0]
+			for _, cand := range []*Term{S.Sub(d, iter), S.Add(d, iter)} {
+				// d = iter + rest (N = -rest)   or   d = -iter + rest (N = rest)
+				if DependsOn(cand, func(sy *Symbol) bool { return sy == ls.Iter }) || DependsOn(cand, inLoop) {
+					continue
+				}
+				n := cand
+				if cand == S.Sub(d, iter) {
+					n = S.Neg(cand)
+				}
+				if nonNeg(n) {
+					lt := S.Cmp("<", iter, n)
+					if lt.Op == "le0" {
+						// i == N is i >= N wherever the loop's own terms mention it (i never exceeds N)
+						memo := map[*Term]*Term{contG.Args[0]: S.Not(lt)}
+						f := func(t *Term) *Term { return S.Subst(t, map[*Symbol]*Term{}, memo) }
+						contG = lt
+						for _, c := range ls.Carried {
+							c.Next = f(c.Next)
+						}
+						ls.Cont = S.Canon(f(ls.Cont))
+						for _, x := range ls.Exits {
+							x.Guard = S.Canon(f(x.Guard))
+						}
+						ls.Body.MapTerms(f)
+						for i := range rs.tex {
+							rs.tex[i].Guard = f(rs.tex[i].Guard)
+						}
+					}
+					break
+				}
+			}
+		}
 		if contG.Op == "le0" {
 			d := contG.Args[0]
 			atoms, coefs, off := linParts(d)
@@ -670,6 +747,66 @@ func (in *Inst) finishLoop(ls *LoopS, rs *regionState) {
 	}
 }
 
+// wrapClosedForm recognises next = (x+1 == N || x+1 >= N) ? 0 : x+1 with N loop-invariant and an initial value known
+// to lie in (-N, N) with N > 0: written as _ % N (N == 0 would already have panicked; N is a length, so not negative),
+// or the constant 0 with N known positive. Truncated remainder: for x_0 in (-N, 0) the values x_0, x_0+1, .., -1, 0, 1, ..
+// are exactly (x_0 + k) % N as well.
+func wrapClosedForm(S *Store, c *Carried, iter *Term, inLoop func(*Symbol) bool) *Term {
+	return wrapClosedFormIn(S, c, iter, inLoop, nil)
+}
+
+// wrapClosedFormIn: inRange (optional) decides further initial values known to lie in [0, N).
+func wrapClosedFormIn(S *Store, c *Carried, iter *Term, inLoop func(*Symbol) bool, inRange func(init, N *Term) bool) *Term {
+	nx := c.Next
+	if nx == nil || nx.Op != "ite" || c.Init == nil {
+		return nil
+	}
+	self := S.SymTerm(c.Sym)
+	inc := S.Add(self, S.Int(1))
+	cond, a, b := nx.Args[0], nx.Args[1], nx.Args[2]
+	zero := S.Int(0)
+	var wrap *Term
+	switch {
+	case a == zero && b == inc:
+		wrap = cond
+	case b == zero && a == inc:
+		wrap = S.Not(cond)
+	default:
+		return nil
+	}
+	isSelf := func(sy *Symbol) bool { return sy == c.Sym }
+	var N *Term
+	switch wrap.Op {
+	case "eq0":
+		for _, cand := range []*Term{S.Sub(inc, wrap.Args[0]), S.Add(inc, wrap.Args[0])} {
+			if !DependsOn(cand, isSelf) {
+				N = cand
+			}
+		}
+	case "le0": // N - x - 1 <= 0
+		if cand := S.Add(wrap.Args[0], inc); !DependsOn(cand, isSelf) {
+			N = cand
+		}
+	}
+	if N == nil || DependsOn(N, inLoop) || !nonNeg(N) {
+		return nil
+	}
+	okInit := false
+	if c.Init.Op == "imod" && c.Init.Args[1] == N {
+		okInit = true
+	}
+	if v, ok := c.Init.IntVal(); ok && v == 0 && isPos(N) {
+		okInit = true
+	}
+	if !okInit && inRange != nil && inRange(c.Init, N) {
+		okInit = true
+	}
+	if !okInit {
+		return nil
+	}
+	return S.Op("imod", TInt, S.Add(c.Init, iter), N)
+}
+
 // finalSubst maps a term over the symbols of loop ls to its value after the loop.
 func (in *Inst) finalSubst(t *Term, ls *LoopS) *Term {
 	S := in.X.S
@@ -698,6 +835,212 @@ func (in *Inst) finalSubst(t *Term, ls *LoopS) *Term {
 // ---- cells ----
 
 func (in *Inst) cellSym(a *ssa.Alloc) *Symbol { return in.X.objOf[a] }
+
+// fieldCellable: a struct local with scalar / reference fields (no nested aggregates) whose address is only used to
+// reach its fields (read or written one at a time) or handed, as a plain argument, to static in-module callees that will
+// be inlined and use it in the same way. Such an object is just the bundle of its fields.
+func (in *Inst) fieldCellable(a *ssa.Alloc) bool {
+	st, ok := deref(a.Type()).Underlying().(*types.Struct)
+	if !ok || st.NumFields() == 0 {
+		return false
+	}
+	for i := 0; i < st.NumFields(); i++ {
+		if isAggregate(st.Field(i).Type()) {
+			return false
+		}
+	}
+	seen := map[ssa.Value]bool{}
+	var okUse func(v ssa.Value, depth int) bool
+	cur := in // the instance whose code v belongs to while it is one being walked (nil inside callees not yet inlined)
+	okUse = func(v ssa.Value, depth int) bool {
+		if seen[v] {
+			return true
+		}
+		seen[v] = true
+		refs := v.Referrers()
+		if refs == nil {
+			return false
+		}
+		for _, r := range *refs {
+			switch r := r.(type) {
+			case *ssa.DebugRef:
+			case *ssa.UnOp:
+				// the whole value read at once (handed to a value-receiver method): the tuple of its fields
+				if r.Op != token.MUL {
+					return false
+				}
+			case *ssa.Store:
+				// the whole value written at once: only from another bundle, a bundle passed by value, or zero
+				if r.Addr != v {
+					return false
+				}
+				switch sv := r.Val.(type) {
+				case *ssa.Const:
+				case *ssa.Call:
+					// the result of a call: a bundle built by an inlined callee, or an opaque value whose fields are
+					// selected from it
+				case *ssa.UnOp:
+					src, isAl := sv.X.(*ssa.Alloc)
+					if sv.Op != token.MUL || !isAl {
+						return false
+					}
+					if src == a {
+						continue // `return f, err` on a named result: f = f
+					}
+					// the source bundle may be allocated later in the walk (a composite literal assigned to a named
+					// result declared at entry): decide it on its own merits
+					if in.X.objOf[src] == nil || in.X.fieldCells[in.X.objOf[src]] == nil {
+						if in.cellableBusy == nil {
+							in.cellableBusy = map[*ssa.Alloc]bool{}
+						}
+						if in.cellableBusy[src] || src.Parent() != a.Parent() {
+							return false
+						}
+						in.cellableBusy[a] = true
+						ok := in.fieldCellable(src)
+						delete(in.cellableBusy, a)
+						if !ok {
+							return false
+						}
+					}
+				case *ssa.Parameter:
+					idx := -1
+					for i, p := range sv.Parent().Params {
+						if p == sv {
+							idx = i
+						}
+					}
+					if depth != 0 || sv.Parent() != in.Fn || idx < 0 || idx >= len(in.Args) || in.Args[idx] == nil || in.Args[idx].Op != "mkstruct" {
+						return false
+					}
+				default:
+					return false
+				}
+			case *ssa.FieldAddr:
+				if r.X != v {
+					return false
+				}
+				fr := r.Referrers()
+				if fr == nil {
+					return false
+				}
+				for _, u := range *fr {
+					switch u := u.(type) {
+					case *ssa.DebugRef:
+					case *ssa.UnOp:
+						if u.Op != token.MUL {
+							return false
+						}
+					case *ssa.Store:
+						if u.Addr != ssa.Value(r) {
+							return false
+						}
+					default:
+						return false
+					}
+				}
+			case *ssa.Return:
+				// a constructor handing the object to its (inlining) caller: the caller's uses decide
+				if cur == nil || cur.Parent == nil || cur.callSite == nil || depth != 0 || len(r.Results) != 1 {
+					return false
+				}
+				save := cur
+				cur = cur.Parent
+				ok := okUse(save.callSite, 0)
+				cur = save
+				if !ok {
+					return false
+				}
+			case *ssa.Call:
+				c := r.Common()
+				callee := c.StaticCallee()
+				if c.IsInvoke() || callee == nil || !inModule(callee) || callee.Blocks == nil || depth >= 3 || in.depth+depth+1 >= in.X.Cfg.MaxDepth {
+					return false
+				}
+				if in.X.Cfg.Opaque != nil {
+					if opq, _ := in.X.Cfg.Opaque(callee); opq {
+						return false
+					}
+				}
+				if in.onStack(callee) || c.Value == v {
+					return false
+				}
+				for i, arg := range c.Args {
+					if arg != v {
+						continue
+					}
+					save := cur
+					cur = nil
+					ok := i < len(callee.Params) && okUse(callee.Params[i], depth+1)
+					cur = save
+					if !ok {
+						return false
+					}
+				}
+			default:
+				return false
+			}
+		}
+		return true
+	}
+	r := okUse(a, 0)
+	if os.Getenv("VERIF_DEBUG_FC") != "" {
+		fmt.Fprintf(os.Stderr, "fieldCellable %s %s in %s: %v\n", a.Name(), a.Comment, in.Fn, r)
+	}
+	return r
+}
+
+// fieldCellsStoredIn: the field cells of live bundled structs that code reachable from the blocks bs may store to
+// (decided by struct type and field index: an over-approximation by type).
+func (in *Inst) fieldCellsStoredIn(bs []*ssa.BasicBlock, add func(*Symbol)) {
+	if len(in.X.fieldCells) == 0 {
+		return
+	}
+	type key struct {
+		t types.Type
+		f int
+	}
+	stored := map[key]bool{}
+	seenFn := map[*ssa.Function]bool{}
+	var scan func(blocks []*ssa.BasicBlock, depth int)
+	scan = func(blocks []*ssa.BasicBlock, depth int) {
+		for _, b := range blocks {
+			for _, instr := range b.Instrs {
+				switch t := instr.(type) {
+				case *ssa.Store:
+					if fa, ok := t.Addr.(*ssa.FieldAddr); ok {
+						stored[key{deref(fa.X.Type()), fa.Field}] = true
+					}
+				case ssa.CallInstruction:
+					if callee := t.Common().StaticCallee(); callee != nil && inModule(callee) && callee.Blocks != nil && !seenFn[callee] && depth < 6 {
+						seenFn[callee] = true
+						scan(callee.Blocks, depth+1)
+					}
+				}
+			}
+		}
+	}
+	scan(bs, 0)
+	if len(stored) == 0 {
+		return
+	}
+	var objs []*Symbol
+	for o := range in.X.fieldCells {
+		objs = append(objs, o)
+	}
+	sort.Slice(objs, func(i, j int) bool { return objs[i].uid < objs[j].uid })
+	for _, o := range objs {
+		al, ok := o.Obj.(*ssa.Alloc)
+		if !ok {
+			continue
+		}
+		for i, c := range in.X.fieldCells[o] {
+			if stored[key{deref(al.Type()), i}] {
+				add(c)
+			}
+		}
+	}
+}
 
 func isCellAlloc(a *ssa.Alloc) bool {
 	if isAggregate(deref(a.Type())) {
@@ -804,6 +1147,7 @@ func (in *Inst) cellsStoredIn(l *loopInfo) []*Symbol {
 			// static in-module callees that will be inlined may store to cells passed by free var only via closures; handled above
 		}
 	}
+	in.fieldCellsStoredIn(bs, add)
 	return out
 }
 
@@ -815,6 +1159,13 @@ func (in *Inst) mergeExitCells(ls *LoopS, multi bool) {
 	for _, c := range ls.Carried {
 		if c.Cell == nil {
 			continue
+		}
+		ty := c.Ty
+		if strings.HasSuffix(c.Name, ".len") && c.Cell.Name+".len" == c.Name {
+			continue // handled with the .off half
+		}
+		if strings.HasSuffix(c.Name, ".off") && c.Cell.Name+".off" == c.Name {
+			ty = TRef
 		}
 		var cases []muxCase
 		for i, ex := range ls.Exits {
@@ -832,7 +1183,7 @@ func (in *Inst) mergeExitCells(ls *LoopS, multi bool) {
 			cases = append(cases, muxCase{g, in.finalSubst(v, ls)})
 		}
 		if len(cases) > 0 {
-			in.X.cellCur[c.Cell] = S.Mux(cases, c.Ty)
+			in.X.cellCur[c.Cell] = S.Mux(cases, ty)
 		}
 	}
 }
